@@ -133,6 +133,9 @@ impl<'a> RequireConverter<'a> {
         if let Some(require_path) = self.current.find_require(call, self.context)? {
             log::trace!("found require path `{}`", require_path.display());
 
+            // the converted require depends on this file being there
+            self.context.add_file_dependency(require_path.clone());
+
             if let Some(new_arguments) =
                 self.target
                     .generate_require(&require_path, &self.current, self.context)?
